@@ -69,7 +69,8 @@ def cases(ctx):
                     yield {'kind': 'bit', 'bit': bit, 'enc': enc, 'bit1_off': not bit1, 'company': company}
     # "has no configuration" means: has none now.  The configuration is changed at run time (after earlier inspections in
     # this process) - an element given a configuration, a configured one taken away - and the answer must follow
-    for bit, how in ((7, 'added'), (8, 'added'), (70, 'added'), (127, 'removed'), (2, 'removed'), (72, 'removed')):
+    for bit, how in ((7, 'added'), (8, 'added'), (70, 'added'), (127, 'removed'), (2, 'removed'), (72, 'removed'),
+                     (7, 'added:rebound'), (26, 'removed:rebound'), (71, 'added:rebound'), (3, 'removed:rebound')):
         for enc in ('latin_1', 'cp500'):
             i += 1
             if ctx.mine(i):
@@ -178,7 +179,27 @@ def judge(ctx, case):
             ctx.count('files whose first record is longer than the 2500-byte sample')
         if blocked:
             ctx.seen('block counts of blocked files inspected', nblocks)
-        k1, info = ctx.call(m.ipm_info, io.BytesIO(data), budget=100000)
+        # the kind of binary stream must not matter: in memory, or buffered with a small buffer (whose peek() shows only a
+        # few bytes), or a disk file opened with little buffering
+        how = ('bytesio', 'bytesio', 'buffered_1024', 'buffered_16', 'disk_1024')[(len(data) // 7 + len(msgs)) % 5]
+        ctx.seen('kinds of stream inspected', how)
+        if how == 'bytesio':
+            stream = io.BytesIO(data)
+        elif how.startswith('buffered'):
+            stream = io.BufferedReader(io.BytesIO(data), buffer_size=int(how.split('_')[1]))
+        else:
+            import os
+            import tempfile
+            if not getattr(ctx, 'tmpdir17', None):
+                ctx.tmpdir17 = tempfile.mkdtemp(prefix='vmon-c17-')
+            path = os.path.join(ctx.tmpdir17, 'w.ipm')
+            with open(path, 'wb') as fh:
+                fh.write(data)
+            stream = open(path, 'rb', buffering=1024)
+        try:
+            k1, info = ctx.call(m.ipm_info, stream, budget=100000)
+        finally:
+            stream.close()
         ctx.count('ipm_info calls on writer output')
         if k1 != 'ok':
             ctx.violation('writer_file:%s' % ('step_budget' if k1 == 'steps' else 'exception:' + type(info).__name__),
@@ -303,17 +324,26 @@ def judge(ctx, case):
         if live_edit:
             from cardutil.config import config as live
             ctx.call(m.ipm_info, io.BytesIO(data), budget=100000)          # an inspection before the change
+            original = live['bit_config']
+            rebound = live_edit.endswith(':rebound')
+            if rebound:
+                # the application loads a configuration and puts it in place of the packaged one (a new dict object)
+                import copy
+                live['bit_config'] = copy.deepcopy(original)
+                ctx.count('inspections after the live configuration was replaced by a new object')
             saved = live['bit_config'].get(str(bit))
-            if live_edit == 'added':
+            if live_edit.startswith('added'):
                 live['bit_config'][str(bit)] = {'field_name': 'added at run time', 'field_type': 'FIXED', 'field_length': 10}
             else:
                 del live['bit_config'][str(bit)]
-            configured = live_edit == 'added'
+            configured = live_edit.startswith('added')
             ctx.count('inspections after the live configuration was changed')
             try:
                 k1, info = ctx.call(m.ipm_info, io.BytesIO(data), budget=100000)
             finally:
-                if saved is None:
+                if rebound:
+                    live['bit_config'] = original
+                elif saved is None:
                     live['bit_config'].pop(str(bit), None)
                 else:
                     live['bit_config'][str(bit)] = saved
@@ -356,6 +386,10 @@ def require(m):
         reasons.append('no file whose first record exceeds the inspection sample')
     if not m['counters'].get('cases run with MAX_VBS_RECORD_LENGTH changed at run time'):
         reasons.append('configured maximum never changed at run time')
+    if not {'bytesio', 'buffered_1024', 'buffered_16', 'disk_1024'} <= set(m['classes'].get('kinds of stream inspected', ())) and not m['violations']:
+        reasons.append('stream kinds not all used: %s' % sorted(m['classes'].get('kinds of stream inspected', ())))
+    if not m['counters'].get('inspections after the live configuration was replaced by a new object') and not m['violations']:
+        reasons.append('live configuration never replaced by a new object')
     if not m['counters'].get('inspections after the live configuration was changed') and not m['violations']:
         reasons.append('live configuration never changed between inspections')
     if not m['counters'].get('first bitmaps with bit 1 off') and not m['violations']:
